@@ -13,10 +13,13 @@ import Rl.Lemmas.EditorNextAll
 namespace Rl
 open EM
 
-/-- acceptable commands: a `ReplaceChar` count fits a `u16`; no `YankPop` in vi mode -/
+/-- acceptable commands: a `ReplaceChar` count fits a `u16`; no `YankPop` in vi mode; `Replace` and
+    `ViYankTo` (vi's `c`/`s`/`R` and `y` commands) only in vi mode -/
 def CmdI (cfg : EdCfg) : Cmd → Prop
   | .replaceChar k _ => k ≤ 65535
   | .yankPop => cfg.vi = false
+  | .replace _ _ => cfg.vi = true
+  | .viYankTo _ => cfg.vi = true
   | _ => True
 
 /-- the custom bindings are acceptable commands -/
@@ -536,7 +539,7 @@ theorem rt_viCmdMotion (fuel : Nat) (key : KeyEvent) (n : Nat) :
 
 
 set_option maxHeartbeats 4000000 in
-theorem rt_viCommand (hb : BindsI cfg) (fuel : Nat) (key0 : KeyEvent) :
+theorem rt_viCommand (hvi : cfg.vi = true) (hb : BindsI cfg) (fuel : Nat) (key0 : KeyEvent) :
     RT cfg (CmdI cfg) (viCommand S U cfg fuel key0) := by
   have h3 := fun c => rt_viCharSearch cfg c
   have h4 := fun key n => rt_viCmdMotion S U cfg fuel key n
@@ -576,9 +579,9 @@ theorem rt_viCommand (hb : BindsI cfg) (fuel : Nat) (key0 : KeyEvent) :
 
 
 set_option maxHeartbeats 2000000 in
-theorem rt_viInsert (hb : BindsI cfg) (fuel : Nat) (key : KeyEvent) :
+theorem rt_viInsert (hvi : cfg.vi = true) (hb : BindsI cfg) (fuel : Nat) (key : KeyEvent) :
     RT cfg (CmdI cfg) (viInsert S U cfg fuel key) := by
-  have h4 := fun key => rt_viCommand S U cfg hb fuel key
+  have h4 := fun key => rt_viCommand S U cfg hvi hb fuel key
   have h5 := fun keys key n p => rt_common cfg hb fuel keys key n p
   unfold viInsert
   simp only []
@@ -619,7 +622,7 @@ theorem rt_nextCmd (hb : BindsI cfg) (fuel : Nat) (sea iep : Bool) :
       intro key
       refine RT.bindT (RT.read _) ?_
       intro inCommand
-      exact RT.ite (RT.bindQ (rt_viInsert S U cfg hb fuel key) hfin) (RT.bindQ (rt_viCommand S U cfg hb fuel key) hfin)
+      exact RT.ite (RT.bindQ (rt_viInsert S U cfg hvi hb fuel key) hfin) (RT.bindQ (rt_viCommand S U cfg hvi hb fuel key) hfin)
   · have hvf : cfg.vi = false := by simpa using hvi
     simp only [hvf, Bool.not_false, Bool.false_eq_true, if_false, if_true]
     split <;>
